@@ -8,6 +8,8 @@ require (
 	storj.io/drpc v0.0.33
 )
 
+require github.com/zeebo/errs v1.2.2 // indirect
+
 // The checks never build against this path: bin/simbuild generates a modfile
 // whose replace points at a freshly rewritten scratch copy of /repo's working
 // tree. This line only keeps plain `go vet`/editors working.
